@@ -291,6 +291,8 @@ pub struct St {
     pub stop_requested: bool,
     /// wakeup() returned and no wait has ended since: the next (or current) wait must not sleep
     pub wakeup_outstanding: bool,
+    /// virtual time the before_sleep hooks of the dispatch in progress took
+    pub hook_time: u64,
     /// every (slot, generation) a token was issued for by the current loop
     pub issued_keys: std::collections::BTreeSet<usize>,
     /// a slot went through tens of thousands of reuses: generations may legitimately wrap
